@@ -624,3 +624,105 @@ func zzH_C10_reopen_staking() {
 	zzverif.Assert(zzC10sSame(reopened, zzC10sObserve(rb)), "committed staking content does not depend on where intermediate roots and commits were taken")
 	zzverif.Reach("end")
 }
+
+// ---- the withdraw queue: records are also changed in place through GetWithdrawQueue ----
+// (processWithdrawQueue marks a paid record finished, takePenalty lowers its FinalBalance)
+
+type zzC10qOp struct {
+	kind   int
+	height uint64
+	amt    *big.Int
+	del    bool
+}
+
+func zzC10qApply(s *StateDB, k int, op zzC10qOp, flush bool) {
+	switch op.kind {
+	case 0:
+		s.AddWithdrawRecord(&WithdrawRecord{Operator: zzAddr(2), Validator: zzValAddr(2), Nonce: uint64(70 + k), CompletionHeight: op.height,
+			InitialBalance: new(big.Int).Set(op.amt), FinalBalance: new(big.Int).Set(op.amt)})
+	case 1: // the record at the head is paid out
+		if q := s.GetWithdrawQueue(); len(q.Records) > 0 {
+			q.Records[0].Finished = 1
+		}
+	case 2: // a penalty is taken from the newest pending withdrawal
+		if q := s.GetWithdrawQueue(); len(q.Records) > 0 {
+			r := q.Records[len(q.Records)-1]
+			r.FinalBalance = new(big.Int).Rsh(r.FinalBalance, 1)
+		}
+	case 3:
+		if flush {
+			s.IntermediateRoot(op.del)
+		} else {
+			s.Finalise(op.del)
+		}
+	case 4:
+		if flush {
+			s.Commit(op.del)
+		} else {
+			s.Finalise(op.del)
+		}
+	}
+}
+
+type zzC10qRec struct {
+	nonce, height uint64
+	finished      uint8
+	initial, fin  *big.Int
+}
+
+func zzC10qObserve(s *StateDB) []zzC10qRec {
+	var out []zzC10qRec
+	for _, r := range s.GetWithdrawQueue().Records {
+		out = append(out, zzC10qRec{r.Nonce, r.CompletionHeight, r.Finished, new(big.Int).Set(r.InitialBalance), new(big.Int).Set(r.FinalBalance)})
+	}
+	return out
+}
+
+func zzC10qSame(x, y []zzC10qRec) bool {
+	if len(x) != len(y) {
+		return false
+	}
+	oks := []bool{true}
+	for i := range x {
+		oks = append(oks, x[i].nonce == y[i].nonce, x[i].height == y[i].height, x[i].finished == y[i].finished, x[i].initial.Cmp(y[i].initial) == 0, x[i].fin.Cmp(y[i].fin) == 0)
+	}
+	return zzverif.All(oks...)
+}
+
+// zzH_C10_reopen_queue: withdraw records added, paid (finished in place) and penalised (balance
+// lowered in place) with intermediate roots and commits at arbitrary positions: the queue
+// reopened from the committed roots is the live queue, and that of a single-flush twin.
+func zzH_C10_reopen_queue() {
+	nops := zzverif.Bound("operations (withdraw queue)", 3, 4)
+	ops := make([]zzC10qOp, nops)
+	for i := range ops {
+		ops[i] = zzC10qOp{kind: zzverif.Choose("op", 5), height: uint64(zzverif.U16("op.height")), amt: zzverif.Big("op.amount", 64), del: zzverif.Bool("op.deleteEmpty")}
+	}
+	a := zzC10rNew()
+	for k, op := range ops {
+		zzC10qApply(a, k, op, true)
+	}
+	root, valRoot, stakingRoot, err := a.Commit(true)
+	zzverif.Assert(err == nil && a.Error() == nil, "commit succeeds")
+	ra, err := New(root, valRoot, stakingRoot, zzC10rDB)
+	zzverif.Assert(err == nil, "the committed roots open")
+	if err != nil {
+		return
+	}
+	zzverif.Reach("reopened")
+	live, reopened := zzC10qObserve(a), zzC10qObserve(ra)
+	zzverif.Assert(zzC10qSame(live, reopened), "the withdraw queue reopened from the committed roots is the live queue, in-place changes of its records included")
+	b := zzC10rNew()
+	for k, op := range ops {
+		zzC10qApply(b, k, op, false)
+	}
+	rootB, valRootB, stakingRootB, err := b.Commit(true)
+	zzverif.Assert(err == nil && b.Error() == nil, "commit succeeds (single flush)")
+	rb, err := New(rootB, valRootB, stakingRootB, zzC10rDB)
+	zzverif.Assert(err == nil, "the committed roots open (single flush)")
+	if err != nil {
+		return
+	}
+	zzverif.Assert(zzC10qSame(reopened, zzC10qObserve(rb)), "the committed queue does not depend on where intermediate roots and commits were taken")
+	zzverif.Reach("end")
+}
